@@ -297,7 +297,7 @@ def _type(ip, x):
 
 @model("builtins.sorted")
 def _sorted(ip, xs, **kw):
-    xs = ip.iterate(xs)
+    xs = list(xs) if isinstance(xs, (set, frozenset, SetList)) else ip.iterate(xs)
     if all(isinstance(x, (int, str)) for x in xs) and not kw:
         return sorted(xs)
     raise Unsupported("sorted on symbolic values")
@@ -493,6 +493,17 @@ class IdDict(dict):
 # ------------------------------------------------------------------ container methods
 
 
+def seq_index(ip, seq, x):
+    """list.index with python's == semantics (dataclasses compare by value): the first position whose element equals x"""
+    for i, y in enumerate(seq):
+        r = y is x or ip.equals(y, x)
+        if r is True:
+            return i
+        if r is not False and ip.ctx.branch(r, "index-eq"):
+            return i
+    raise PyRaise("ValueError", ("not in list",))
+
+
 def container_method(ip, v, name):
     if isinstance(v, list):
         if name == "append":
@@ -520,7 +531,7 @@ def container_method(ip, v, name):
                 v.append(x)
             return PyFn(add, "set.add")
         if name == "index":
-            return PyFn(lambda ip2, x: v.index(x), "list.index")
+            return PyFn(lambda ip2, x: seq_index(ip2, v, x), "list.index")
         if name == "union" and isinstance(v, SetList):
             def union(ip2, *others):
                 out = SetList(list(v))
@@ -569,7 +580,7 @@ def container_method(ip, v, name):
             return PyFn(sm, "str." + name)
     if isinstance(v, tuple):
         if name == "index":
-            return PyFn(lambda ip2, x: v.index(x), "tuple.index")
+            return PyFn(lambda ip2, x: seq_index(ip2, v, x), "tuple.index")
         if name == "count":
             return PyFn(lambda ip2, x: v.count(x), "tuple.count")
     raise Unsupported(f"method {type(v).__name__}.{name}")
@@ -597,3 +608,25 @@ def _weakref(ip, o):
     f = PyFn(lambda ip2: None if getattr(o, "dead", False) else o, "weakref")
     f.weak_target = o
     return f
+
+
+@model("math.ceil")
+def _ceil(ip, x):
+    if isinstance(x, (int, float)):
+        return math.ceil(x)
+    if is_z3(x) and x.sort() == z3.IntSort():
+        return x
+    if is_z3(x) and x.sort() == z3.RealSort():
+        return -z3.ToInt(-x)
+    raise Unsupported("math.ceil")
+
+
+@model("math.floor")
+def _floor(ip, x):
+    if isinstance(x, (int, float)):
+        return math.floor(x)
+    if is_z3(x) and x.sort() == z3.IntSort():
+        return x
+    if is_z3(x) and x.sort() == z3.RealSort():
+        return z3.ToInt(x)
+    raise Unsupported("math.floor")
